@@ -584,7 +584,7 @@ func Run(c *core.Ctx) {
 	c.End(0)
 
 	// (b) random streams
-	ns := c.Pick(240000, 1500000)
+	ns := c.Pick(240000, 6000000)
 	for i := 0; i < ns; i++ {
 		if !c.Take("stream", i) {
 			continue
@@ -620,7 +620,7 @@ func Run(c *core.Ctx) {
 	c.End(0)
 
 	// (c) programs: separation, planted errors, break points
-	np := c.Pick(20000, 100000)
+	np := c.Pick(20000, 500000)
 	for i := 0; i < np; i++ {
 		if c.Take("sep", i) {
 			c.Begin(0, "sep", i, "")
@@ -635,7 +635,7 @@ func Run(c *core.Ctx) {
 			m.checkRuntimeError("rerr", i, c.Rng("rerr", i))
 		}
 	}
-	nb := c.Pick(4000, 20000)
+	nb := c.Pick(4000, 100000)
 	for i := 0; i < nb; i++ {
 		if c.Take("bp", i) {
 			c.Begin(0, "bp", i, "")
